@@ -587,6 +587,15 @@ class PluginGen(object):
             self.steps.append(("set", "enteringExcludedRegionGcode", text, cmds))
             self.store["enter"] = cmds
             self.event("SettingsUpdated")
+        if self.focus in ("lifecycle", "mixed") and rng.random() < 0.2:
+            # the two switches as a REST client or a hand-edited config.yaml may store them: text
+            # with a meaning (OctoPrint's boolean conversion), here one that means "off"
+            key = rng.choice(["clearAfter", "clearAfter", "mayShrink"])
+            self.steps.append(("set", {"clearAfter": "clearRegionsAfterPrintFinishes",
+                                       "mayShrink": "mayShrinkRegionsWhilePrinting"}[key],
+                               rng.choice(["false", "no", "0", "False"]), False))
+            self.store[key] = False
+            self.event("SettingsUpdated")
         if self.focus in ("hook", "mixed") and rng.random() < 0.4:
             self.steps.append(("set", "mayShrinkRegionsWhilePrinting", True, None))
             self.store["mayShrink"] = True
@@ -705,17 +714,28 @@ def fine_history(seed):
             reg["jit"] = True
         steps.append(("api", "addExcludeRegion", _spec(reg, reg["id"]), False))
         view.append(reg)
-    if rng.random() < 0.15:
+    shrinkable = rng.random() < 0.25
+    if shrinkable:
         steps.append(("set", "mayShrinkRegionsWhilePrinting", True, None))
         steps.append(("pev", "SettingsUpdated"))
     steps.append(("pev", "PrintStarted"))
-    for _ in range(rng.randint(8, 30)):
+    # shrinking may also be forbidden (again) by a settings save while the job is running: from
+    # then on the regions are locked
+    relock = rng.randint(0, 6) if shrinkable and rng.random() < 0.6 else -1
+    for turn in range(rng.randint(8, 30)):
+        if turn == relock:
+            steps.append(("set", "mayShrinkRegionsWhilePrinting", False, None))
+            steps.append(("pev", "SettingsUpdated"))
         old = rng.choice(view)
         d = rng.choice([1, 2, 3, 5, 7, 9, 10, 11, 15, 40])
         new = dict(old)
         if old["t"] == "circ":
             how = rng.choice(["shrink", "shrink", "shift", "shift", "grow", "tangent", "short",
                               "same", "box", "boxcut", "negative"])
+            if how == "negative" and shrinkable:
+                # (an accepted negative radius next to a 3 mm one would take the squares of the
+                # exact comparison beyond TLC's 32 bit integers)
+                continue
             if how == "negative":
                 # a radius whose square is large enough, but which is negative (an empty disc)
                 new["r"] = -(abs(old["r"]) + rng.choice([0, d, 1000]))
@@ -741,6 +761,8 @@ def fine_history(seed):
                     new[side] += d if side in ("x1", "y1") else -d
         else:
             how = rng.choice(["cut", "cut", "grow", "slide", "same", "swap", "negdisc"])
+            if how == "negdisc" and shrinkable:
+                continue
             if how == "negdisc":
                 # the disc around the rectangle, with the sign of the radius flipped
                 half = max(old["x2"] - old["x1"], old["y2"] - old["y1"])
